@@ -56,7 +56,7 @@ type result struct {
 }
 
 func TestC11Pedersen(t *testing.T) {
-	vstat.Rule("C11", "pedersen: a case is one complete pedersen ceremony (drawn n in 3..MAXN, threshold 2..n, 1..3 validators, drawn frame delivery order with virtual-time phases); non-trivial when it succeeded and (threshold < n or validators > 1 or frames were delivered out of order)")
+	vstat.Rule("C11", "pedersen: a case is one complete pedersen ceremony (drawn n in 3..MAXN, threshold 2..n, 1..4 validators, drawn frame delivery order with virtual-time phases); non-trivial when it succeeded and (threshold < n or validators > 1 or frames were delivered out of order)")
 	maxN := vstat.EnvInt("VERIF_C11_MAXN", 6)
 	log.InitConsoleForT(t, zapcore.AddSync(io.Discard))
 	rapid.Check(t, func(rt *rapid.T) {
@@ -72,7 +72,7 @@ func run(rt *rapid.T, maxN int) {
 	n := rapid.IntRange(3, maxN).Draw(rt, "n")
 	// the generator follows what dkg.Run accepts: 2..n.
 	th := rapid.IntRange(2, n).Draw(rt, "t")
-	v := rapid.IntRange(1, 3).Draw(rt, "validators")
+	v := rapid.IntRange(1, 4).Draw(rt, "validators")
 	repeated := rapid.Bool().Draw(rt, "repeatedCeremony")
 	first := ceremony(rt, n, th, v, "first", nil)
 	if !repeated {
